@@ -74,3 +74,17 @@ Theorem C04_seek_next_written :
 Proof. exact seek_next_written. Qed.
 Print Assumptions C04_seek_next_written.
 Print Assumptions C04_header_checksum_same_on_both_sides.
+
+(* F-C04e (known finding): the documented promise "SeekNext returns the first record that STARTS at
+   or after the offset" does not hold - a payload containing the complete image of a record makes
+   SeekNext return a position inside that payload, where no record was written. *)
+Theorem C04_seek_next_embedded_refuted :
+  exists (c : codec) (ops : list wop) (seekLen off o : N) (r : option bytes),
+    (forall x, decomp c (comp c x) = Ok x) /\ ctype c <= 3
+    /\ prog_ok c ops 8 [] = true /\ Forall (op_ok c) ops
+    /\ 4 <= seekLen /\ off <= lenN (written c ops)
+    /\ seek_next c seekLen (written c ops) off = Ok (o, r)
+    /\ ~ In o (map fst (surv c ops))
+    /\ (exists o' r', In (o', r') (surv c ops) /\ off <= o').
+Proof. exact seek_next_embedded_refuted. Qed.
+Print Assumptions C04_seek_next_embedded_refuted.
